@@ -934,6 +934,15 @@ class Operation:
             if ofm_tensor is not None:
                 self.ofm_shapes.append(Shape4D(full_shape(4, ofm_tensor.shape, 1)))
 
+    def set_ifm_shapes(self):
+        """Re-derives the IFM shapes from the input tensors and keeps the operator's own view of its OFM. Once a Reshape behind
+        the operator has been bypassed the OFM tensor has the shape that the consumers see, which is not the shape in which
+        the operator produces it"""
+        ofm_shapes = self.ofm_shapes
+        self.set_ifm_ofm_shapes()
+        if ofm_shapes:
+            self.ofm_shapes = ofm_shapes
+
     def has_scaling(self):
         scaled = True
         for tensor in [self.ifm, self.ifm2, self.ofm]:
